@@ -1167,7 +1167,8 @@ func ruleTLSConfig(c *Ctx, rid string) {
 					for _, r := range *sock.Referrers() {
 						if call, ok := r.(*ssa.Call); ok {
 							n := calleeName(call.Common())
-							if n != "crypto/tls.Server" && !strings.HasSuffix(n, ".Close") {
+							// Close and the address accessors neither read nor write the stream (a log line naming the peer)
+							if n != "crypto/tls.Server" && !strings.HasSuffix(n, ".Close") && !strings.HasSuffix(n, ".RemoteAddr") && !strings.HasSuffix(n, ".LocalAddr") && !onlyLooksAtAddress(call, sock) {
 								raw = true
 							}
 						}
@@ -2191,4 +2192,38 @@ func (d *dispatchInfo) connArg() ssa.Value {
 		}
 	}
 	return d.Call.Common().Args[0]
+}
+
+// onlyLooksAtAddress: the call hands the socket to a repository helper that does nothing with it
+// but test it against nil and ask for its addresses (peerAddrString(conn) for a log line).
+func onlyLooksAtAddress(call *ssa.Call, sock ssa.Value) bool {
+	h := staticCallee(call.Common())
+	if h == nil || !inRepo(h) || h.Blocks == nil {
+		return false
+	}
+	for i, a := range call.Common().Args {
+		if strip(a) != sock && a != sock {
+			continue
+		}
+		if i >= len(h.Params) || h.Params[i].Referrers() == nil {
+			return false
+		}
+		for _, r := range *h.Params[i].Referrers() {
+			switch x := r.(type) {
+			case *ssa.DebugRef:
+			case *ssa.BinOp:
+				if x.Op != token.EQL && x.Op != token.NEQ {
+					return false
+				}
+			case *ssa.Call:
+				n := calleeName(x.Common())
+				if !strings.HasSuffix(n, ".RemoteAddr") && !strings.HasSuffix(n, ".LocalAddr") {
+					return false
+				}
+			default:
+				return false
+			}
+		}
+	}
+	return true
 }
